@@ -312,6 +312,12 @@ def pumped_cases(sh):
                 yield {"part": sh["part"], "tok": sh["tok"], "text": head + f * n}
 
 
+def opt_shards(tier):
+    out = [{"part": "layouts", "kind": "layouts", "tok": "AC", "G": 5, "adds": 2, "r": r, "n": 16} for r in range(16)]
+    out += dd.seq_shards("plain-AC", "A3", len(A3), 2, "AC")
+    return out
+
+
 def run_shard(sh):
     st = Stats()
     if sh["kind"] == "layouts":
